@@ -91,6 +91,36 @@ class LibMixin:
             isnil = v.rid == rid(0)
             # Clone(nil) == nil
             return SliceV(z3.If(isnil, rid(0), r.rid), idx(0), v.ln, z3.If(isnil, idx(0), v.ln), v.elem)
+        if callee == "sync.(*Once).Do":
+            self.models_used.add("sync.Once.Do (runs f iff the once has not fired, then marks it fired; at-most-once is trusted)")
+            fun = e["Fun"]
+            lv = self.lvalue(fun["X"], st)
+            from .sym import HeapLV as _H
+            if not isinstance(lv, _H):
+                raise Unsupported("sync.Once that is not a field of a heap object")
+            key = "once:" + self.heap_key(lv.owner, lv.name)
+            arr = st.heap.get(key)
+            if arr is None:
+                arr = z3.Array("H_" + key, RS, z3.BoolSort())
+                st.heap[key] = arr
+            fired = z3.Select(arr, lv.oid)
+            fv = self.ev(args[0], st)
+            run = st.fork(zand(st.pc, znot(fired)))
+            if not z3.is_false(z3.simplify(run.pc)):
+                if fv.kind == "lit":
+                    self.inline_lit(fv, [], run, e)
+                elif fv.kind == "bound":
+                    self.call_bound(fv, [], run, e)
+                else:
+                    raise Unsupported("Once.Do of this function value")
+                skip = st.fork(zand(st.pc, fired))
+                pc = st.pc
+                m = self.merge(run, skip)
+                m.pc = pc
+                st.assign_from(m)
+            arr = st.heap.get(key)
+            st.heap[key] = z3.Store(arr, lv.oid, TRUE)
+            return TupleV([])
         if callee in ("math.Float64bits", "math.Float64frombits", "math.Float32bits", "math.Float32frombits"):
             self.models_used.add(callee + " (identity on bit patterns)")
             return self.ev(args[0], st)
@@ -137,5 +167,5 @@ class LibMixin:
         return zand(a.tag != rid(0), zor(*alts))
 
 
-LIB_PURE = {"errors.New", "fmt.Errorf", "errors.Is", "bytes.Clone", "slices.Clone", "math.Float64bits", "math.Float64frombits",
+LIB_PURE = {"sync.(*Once).Do", "errors.New", "fmt.Errorf", "errors.Is", "bytes.Clone", "slices.Clone", "math.Float64bits", "math.Float64frombits",
             "math.Float32bits", "math.Float32frombits"}
